@@ -588,6 +588,48 @@ class Replayer:
                 fails += self.check_obs(live.get(name), obs, t["post"][name])
         return fails
 
+    @staticmethod
+    def _deg(U):
+        k = 0
+        while k + 1 < len(U) and U[k + 1] == U[0]:
+            k += 1
+        return k
+
+    @staticmethod
+    def _sample_pts(Us, deg):
+        """SamplePts of Spline.tla: all breaks + deg+1 equispaced interior points of every span"""
+        ks = sorted({fr(x) for U in Us for x in U})
+        pts = set(ks)
+        for a, b in zip(ks[:-1], ks[1:]):
+            for k in range(1, deg + 2):
+                pts.add(a + (b - a) * Fraction(k, deg + 2))
+        return sorted(pts)
+
+    def observed_values(self, name, c, b, d, curve):
+        """values the implementation returns for the result curve on the sample set the clauses use"""
+        if d is None or curve is None:
+            return []
+        dc, dd = self._deg(c["U"]), self._deg(d["U"])
+        if name == "CvScalar":
+            Us, deg = [c["U"], d["U"]], 2 * dc + dd
+        elif name in ("CvJoin", "CvArith"):
+            Us, deg = [c["U"], b["U"], d["U"]], dc + self._deg(b["U"]) + dd
+        else:
+            Us, deg = [c["U"], d["U"]], dc + dd
+        lo, hi = fr(d["U"][0]), fr(d["U"][-1])
+        out = []
+        for u in self._sample_pts(Us, deg):
+            v = NAN
+            if lo <= u <= hi:
+                try:
+                    r = rat(curve(self.mode.num(rat(u))))
+                    if core.fits32(r):
+                        v = r
+                except Exception:
+                    v = NAN
+            out.append([rat(u), v])
+        return out
+
     def emit(self, t, live, cls, val, fails):
         """send the observed outcome of a relationally specified action to Trace.tla"""
         a = t["act"]
@@ -595,11 +637,14 @@ class Replayer:
         c = strip_curve(t["pre"][a["obj"]])
         b = strip_curve(a["other"]) if isinstance(a.get("other"), dict) else None
         d = None
+        curve = None
         try:
             if name in MUTATING_SEM:
-                d = strip_curve(self.project(live[a["obj"]]))
+                curve = live[a["obj"]]
+                d = strip_curve(self.project(curve))
             elif cls == "ok":
-                d = strip_curve(self.project(val["curve"]))
+                curve = val["curve"]
+                d = strip_curve(self.project(curve))
         except TypeError as e:
             fails.append(f"result: inexact number from exact data: {e}")
             return
@@ -626,7 +671,13 @@ class Replayer:
                 return
             pre = t["pre"][a["obj"]]
             act = {"name": name, "kv": pre["U"], "weights": pre["W"], "nodes": a["nodes"], "data": a["data"]}
-        self.validator.add(act, c=c, b=b, d=d, cls=cls, tag=t)
+        dv = []
+        if name not in ("CvFitCurve", "CvFitPoints") and cls == "ok":
+            dv = self.observed_values(name, c, b or {"U": [], "P": [], "W": []}, d, curve)
+        if d is not None:  # numbers outside TLC's range: kept only as markers (the values travel in dv)
+            d = {"U": d["U"], "P": [x if core.fits32(x) else NAN for x in d["P"]],
+                 "W": [x if core.fits32(x) else NAN for x in d["W"]]}
+        self.validator.add(act, c=c, b=b, d=d, cls=cls, tag=t, dv=dv)
 
     def cmp_CvJoin(self, live, t, val):
         f = []
@@ -1157,7 +1208,7 @@ def replay_all(records, replayer, on_fail, *, sample=None, limit=None, nproc=Non
             on_fail(records[i], fails)
         if replayer.validator is not None:
             for ev, tag in events:
-                replayer.validator.add(ev["act"], c=ev["c"], b=ev["b"], d=ev["d"], cls=ev["cls"], tag=tag)
+                replayer.validator.add(ev["act"], c=ev["c"], b=ev["b"], d=ev["d"], cls=ev["cls"], tag=tag, dv=ev["dv"])
     if sample is not None:
         for i, t in enumerate(records[:50]):
             if i not in failed:
